@@ -168,7 +168,20 @@ func H_C12_asr_vs_acr() {
 		}
 		// acr: states separated by '|', sorted like the alphabet
 		want := strings.ReplaceAll(c2[len(c2)-1], "|", "")
-		sxAssert(sites[0] == want, "same state set at every node as the single-character reconstruction")
+		sxAssert(c12sameSet(sites[0], want), "same state set at every node as the single-character reconstruction")
 	}
 	sxReach("checked")
+}
+
+// same set of state letters, whatever their order
+func c12sameSet(a, b string) bool {
+	if len(a) != len(b) {
+		return false
+	}
+	for i := 0; i < len(a); i++ {
+		if !strings.Contains(b, a[i:i+1]) {
+			return false
+		}
+	}
+	return true
 }
